@@ -141,6 +141,13 @@ func ConvertSdcpbNumberToUint64(mm *sdcpb.Number) (uint64, error) {
 }
 
 func ConvertSdcpbNumberToInt64(mm *sdcpb.Number) (int64, error) {
+	if mm.Negative {
+		// the magnitude of the smallest int64 is one above the largest
+		if mm.Value > uint64(math.MaxInt64)+1 {
+			return 0, fmt.Errorf("error converting -%d to int64 overflow", mm.Value)
+		}
+		return int64(-mm.Value), nil
+	}
 	if mm.Value > math.MaxInt64 {
 		return 0, fmt.Errorf("error converting %d to int64 overflow", mm.Value)
 	}
